@@ -203,7 +203,7 @@ impl PropImpl for C05 {
         vec!["op:add", "op:insert-in-range", "op:insert-at-end", "op:insert-beyond-end", "op:remove-in-range", "op:remove-beyond-end", "op:set", "add/insert-while-a-paragraph-is-still-empty", "add/insert-while-every-paragraph-is-empty", "set-fills-an-empty-paragraph-that-is-not-the-last", "start:empty", "start:built", "start:parsed", "start:leading-trivia", "start:trailing-trivia", "start:no-final-newline"]
     }
     fn budget(&self, tier: Tier) -> Budget {
-        Budget { cases_per_lane: if tier == Tier::Quick { 10000 } else { 40_000 }, tape_max: 800, cpu_s: 10 }
+        Budget { cases_per_lane: if tier == Tier::Quick { 30000 } else { 120000 }, tape_max: 800, cpu_s: 10 }
     }
     fn spaces(&self, _tier: Tier) -> Vec<Space> {
         vec![Space { name: "all histories of <= 3 structural operations on 10 layouts".into(), size: HIST * LAYOUTS.len() as u64, exhaustive: true }]
